@@ -423,3 +423,29 @@ def check(run, prog, tier):
                            f.name, n.get("fn"), bulk[0], n.get("l"), g, "set_root_uid()" if "root" in g else "set_backbone_uid()" if "backbone" in g else "its user"),
                        f.file, n.get("l"), f.name, what="%s frees the uid records and leaves %s dangling" % (f.name, g))
     run.need(ne >= 2, "bulk release of uid records x file-scope record pointers (found %d)" % ne)
+
+
+    # ---- C20-f a uid name maps to its record by content
+    run.rule("C20-f", "add_uid() is the map from a uid name to the record objects point at (uidcmp() compares interned string pointers): what it returns is the result of the tree search made with the interned copy of its argument, or a record allocated there - never a record picked by another criterion (a remembered result compared by the caller's string pointer, which a freed and reused buffer of another name can match): seteuid() would install a euid the master did not approve", 1)
+    nfu = 0
+    for f in sorted(prog.functions(), key=lambda x: (x.file, x.line)):
+        allocs = [(b, i, n) for b, i, n in f.nodes() if n.get("k") == "Asg" and n.get("op") == "=" and "userid" in (strip(n["L"]).get("t") or "") and strip(n["L"]).get("k") == "Ref"
+                  and any(y.get("k") == "Call" and "alloc" in (y.get("fn") or "").lower() for y in walk(n["R"]))]
+        if not allocs or not any(True for _ in f.calls("tree_add")):
+            continue
+        for j, (b, i, n) in enumerate([x for x in f.nodes() if x[2].get("k") == "Return" and x[2].get("e") is not None]):
+            nfu += 1
+            run.saw(f)
+            e = strip(n["e"])
+            while e.get("k") == "Asg":
+                e = strip(e["R"])
+            ok, why = None, "`%s` is not a form this rule reads" % show(n)[:50]
+            if e.get("k") == "Ref" and e.get("d") in ("global", "static", "slocal"):
+                ok, why = False, "`%s` (line %s) hands out a remembered record instead of the one the tree search finds for the interned name: the caller's string pointer can belong to another name by now" % (show(n)[:50], n.get("l"))
+            elif e.get("k") == "Ref" and e.get("d") == "local":
+                defs = [n2["R"] for b2, i2, n2 in f.nodes() if n2.get("k") == "Asg" and n2.get("op") == "=" and strip(n2["L"]).get("k") == "Ref" and strip(n2["L"]).get("id") == e.get("id")]
+                good = [any(y.get("k") == "Call" and ((y.get("fn") or "").startswith("tree_") or "alloc" in (y.get("fn") or "").lower()) for y in walk(d)) for d in defs]
+                ok = bool(defs) and all(good)
+                why = "every value of `%s` is the tree search result or a new record" % e.get("n") if ok else "`%s` (line %s): `%s` has a definition that is neither the tree search nor an allocation" % (show(n)[:40], n.get("l"), e.get("n"))
+            run.ob("C20-f", "lookup:%s:%d" % (f.name, j), ok, why, f.file, n.get("l"), f.name, what="%s answers a uid name with a record not found by that name" % f.name)
+    run.need(nfu >= 1, "returns of the uid record constructor (found %d)" % nfu)
